@@ -52,8 +52,9 @@ def render(sc):
         x = ["<?xml version='1.0'?>", '<!DOCTYPE platform SYSTEM "https://simgrid.org/simgrid.dtd">', '<platform version="4.1">',
              '  <zone id="world" routing="Full">']
         for h in sc["hosts"]:
-            x.append('    <host id="%s" speed="%s" core="%d" %s>' % (h["name"], ",".join(num(s) + "f" for s in h["speeds"]), h["cores"],
-                                                                   " ".join(attrs.get(h["name"], []))))
+            x.append('    <host id="%s" speed="%s" core="%d" %s%s>' % (h["name"], ",".join(num(s) + "f" for s in h["speeds"]), h["cores"],
+                                                                     " ".join(attrs.get(h["name"], [])),
+                                                                     ' pstate="%d"' % h["pstate"] if h.get("pstate") else ""))
             for k, v in sorted(h.get("props", {}).items()):
                 x.append('      <prop id="%s" value="%s"/>' % (k, v))
             x.append("    </host>")
@@ -70,8 +71,9 @@ def render(sc):
         out.append("xml platform.xml")
     else:
         for h in sc["hosts"]:
-            out.append("host %s %d %s%s" % (h["name"], h["cores"], ",".join(num(s) for s in h["speeds"]),
-                                            "".join(" %s=%s" % kv for kv in sorted(h.get("props", {}).items()))))
+            out.append("host %s %d %s%s%s" % (h["name"], h["cores"], ",".join(num(s) for s in h["speeds"]),
+                                              "".join(" %s=%s" % kv for kv in sorted(h.get("props", {}).items())),
+                                              " @pstate=%d" % h["pstate"] if h.get("pstate") else ""))
         for l in sc["links"]:
             out.append("link %s %s %s %s%s" % (l["name"], num(l["bw"]), num(l["lat"]), l["policy"],
                                                "".join(" %s=%s" % kv for kv in sorted(l.get("props", {}).items()))))
@@ -443,6 +445,8 @@ def c23_scenario(rng):
             prop = ",".join("%s:%s:%s" % (num(a), num(b), num(c)) for a, b, c in w)
         off = float(rng.choice([0, 4, 10])) if mode == "exact" else round(rng.uniform(0, 12), 1)
         h = {"name": name, "cores": cores, "speeds": speeds, "props": {"wattage_per_state": prop}, "energy": {"watts": w, "off": off}}
+        if np_ > 1 and rng.random() < 0.25:
+            h["pstate"] = rng.randrange(1, np_)
         if off != 0 or rng.random() < 0.5:
             h["props"]["wattage_off"] = num(off)
         else:
@@ -517,7 +521,7 @@ def c23_scenario(rng):
                 elif r < 0.42 and len(eh) > 1:
                     t2 = grid.date(t, t + 4 * grid.step)
                     other = [x for x in eh if x is not h][0]
-                    if thr <= other["cores"] and other["name"] not in volatile:
+                    if thr == 1 and other["name"] not in volatile:     # (ExecImpl::migrate restarts the exec on ONE core of the destination)
                         ops += [["until", t2], ["xmigrate", i, other["name"]]]
                         t = t2
                 waits.append(["xwait", i])
